@@ -29,7 +29,7 @@ def ensure_gose():
         for f in files:
             if f.endswith(".go") or f in ("go.mod", "go.sum"):
                 newest = max(newest, os.path.getmtime(os.path.join(root, f)))
-    if not os.path.exists(gose) or os.path.getmtime(gose) < newest:
+    if not os.path.exists(gose) or (os.path.getmtime(gose) < newest and not os.environ.get("VERIF_NO_REBUILD")):
         os.makedirs(os.path.join(VERIF, "bin"), exist_ok=True)
         sh(["go", "build", "-o", gose, "./cmd/gose"], cwd=src, check=True)
     return gose
@@ -128,7 +128,7 @@ class Check:
             overlays[v] = hf
             test_overlays[v] = hf
         out = self.scratch.path("res_%d.json" % len(self.runs))
-        cmd = [gose, "run", "-dir", moddir, "-pkg", pkg_pattern, "-tags", "verif", "-harness", regex, "-workers", str(workers), "-models", str(max(1, max_models)), "-out", out]
+        cmd = [gose, "run", "-dir", moddir, "-pkg", pkg_pattern, "-tags", "verif", "-harness", regex, "-workers", str(workers), "-models", str(max(0, max_models)), "-out", out]
         for k, v in overlays.items():
             cmd += ["-overlay", "%s=%s" % (k, v)]
         for k, v in params.items():
@@ -159,6 +159,8 @@ class Check:
             if soft_trunc and h.get("Truncated") and all(("truncated" in pr or "wall budget" in pr) for pr in probs) and not (h.get("Unknowns") or []):
                 rep["_truncated"].append(h["Name"])
                 h["Models"] = []
+                if soft_trunc == "record":
+                    self.not_covered.append({"harness": h["Name"], "schema": ctx["label"], "reason": "path/wall budget exhausted (%d paths explored, violations found so far are still reported)" % h["Paths"]})
                 continue
             self.runs.append(h)
             for pr in probs:
@@ -169,7 +171,8 @@ class Check:
                 cov = h.get("Covers") or {}
                 if not cov:
                     self.problems.append("%s: vacuous (no cover point witnessed)" % h["Name"])
-        self._native(rep["Harnesses"], ctx, max_models)
+        if max_models > 0 or any(h.get("Violations") for h in rep["Harnesses"]):
+            self._native(rep["Harnesses"], ctx, max_models)
         return rep
 
     def _go_test(self, ctx, casedir):
